@@ -257,7 +257,8 @@ func bodiless(code int) bool { return code == 204 || code == 304 || (code >= 100
 // ---------------------------------------------------------------- running a program on the real code
 
 type opResult struct {
-	text string // result line without w=/tr=
+	text string // result line without w=/own=/tr=
+	own  string // owner fields after the op: <buffer id>:<len>/<bodyBuffer id>:<len>
 	w    []int
 	tr   string
 }
@@ -488,7 +489,14 @@ func run(cfg caseCfg, ops []op, tr *track.Tracker, lg *nullLogger) *runOut {
 			}()
 			b, bb := res.VerifOwned()
 			tr.CheckOwners(track.Owner{Name: "Response.buffer", Handle: b}, track.Owner{Name: "Response.bodyBuffer", Handle: bb})
-			out.res = append(out.res, opResult{text: text, w: take(o.kind == "RF"), tr: tr.TakeTrace()})
+			own := func(h *[]byte) string {
+				if h == nil {
+					return "-"
+				}
+				id, _ := tr.IDOf(h)
+				return fmt.Sprintf("%d:%d", id, len(*h))
+			}
+			out.res = append(out.res, opResult{text: text, w: take(o.kind == "RF"), tr: tr.TakeTrace(), own: own(b) + "/" + own(bb)})
 		}
 		b, bb := res.VerifOwned()
 		if b != nil {
@@ -826,7 +834,7 @@ func execResp(e *lp.Exec, cline string, lines []string, tr *track.Tracker, lg *n
 		} else if r.text == "dead" || r.text == "done" || strings.HasSuffix(r.text, " dead") || strings.HasSuffix(r.text, "panic") {
 			e.P("%s", r.text)
 		} else {
-			e.P("%s w=%s tr=%s", r.text, wString(r.w), r.tr)
+			e.P("%s w=%s own=%s tr=%s", r.text, wString(r.w), r.own, r.tr)
 			if len(r.w) > 0 {
 				nontrivial = true
 			}
